@@ -1,4 +1,5 @@
 import BufrProofs.Codec
+import BufrProofs.CodecDynamic
 /-
   C01 — Encode then decode returns every value and the subset structure unchanged.
 
@@ -11,8 +12,18 @@ import BufrProofs.Codec
   tables, any other operators, any fixed replication, any number of subsets, any values) the
   decoder walks exactly the layout the encoder wrote and reads each value from exactly the bits it
   was written to (`C01_static_roundtrip`, `C01_layout_rederived`, `C01_element`).  What the bits of
-  one element decode to, per element kind, is `C01_value_*`.  Delayed replication and 2 03 are
-  covered by the correspondence and the oracle only: `C01_roundtrip_partial` names the hypothesis.
+  one element decode to, per element kind, is `C01_raw_bits` (and BufrProofs/CodecValues.lean).
+
+  Delayed replication and 2 03: `C01_dynamic_subset` / `C01_dynamic_roundtrip` /
+  `C01_dynamic_positions` hold for *every* template.  Their hypothesis is a bit-free, computable walk
+  (`walk`, `walkAll` in BufrProofs/CodecDynamic.lean) that makes the decoder's structural decisions
+  (Table C application, expansion at each factor, the Section 4 size guard, the 2 03 state) from the
+  encoder's nodes: whenever it goes through, the real decoder fed the encoder's bits follows it, reads
+  every data-bearing position from exactly the bits its value was written to, and flags nothing.
+  That the walk goes through for every dataset the API can build is *not* proved (it is the statement
+  that `bufr_expand_datasubset` and the decoder's expansion produce the same lists); it is evaluated
+  by `decide +kernel` on the instance below (nested delayed replication, a zero count, 2 03) and
+  tied by the correspondence streams and the oracle.
 -/
 namespace Bufr.C01
 open Bufr
@@ -70,6 +81,40 @@ theorem C01_raw_bits (n m : Node) (h : (mkvalNode n).enc.afNbits = 0 ∨ (mkvalN
   simp only [hno, if_false]
   rcases ht with h | h | h | h <;> simp [h]
 
+/-- **C01, any template, one subset.**  `walk` makes the decisions of the decode loop from the
+encoder's nodes `ms` alone.  If it reaches the end, the decoder — started anywhere (`done`, `todo`,
+operator state `ddo`) on the bits the encoder wrote for `ms` — returns the very list the walk
+computed, reports the subset complete, leaves the dataset's flag as it was and stops on the first bit
+after the subset. -/
+theorem C01_dynamic_subset (T : Tables) (edition s4max fuel : Nat) (ddo : DDO) (st : DecSt)
+    (done todo ms out : List Node) (rest : List Bool)
+    (h : walk T edition s4max st.s4len fuel ddo done todo ms = some out)
+    (hI : RInv st.r) (hb : st.r.bits = ms.flatMap nodeBits ++ rest) :
+    ∃ r', decodeSubsetLoop T edition s4max fuel ddo st done todo = .ok ({ st with r := r' }, out, .complete) ∧
+      r'.bits = rest ∧ RInv r' :=
+  decodeSubsetLoop_walk T edition s4max fuel ddo st done todo ms out rest h hI hb
+
+/-- **C01, any template, whole message.**  Decoding the uncompressed encoding of the subsets `ss`
+returns the subsets the walk computed — as many as were encoded — and the dataset is not flagged
+invalid. -/
+theorem C01_dynamic_roundtrip (T : Tables) (edition : Nat) (enforce : Enforce) (fuel s4max : Nat)
+    (bsq : List Node) (nbitsSeq : Int) (lenConst : Bool) (ss outs : List (List Node)) (dataFlag : Nat)
+    (h : walkAll T edition enforce s4max fuel bsq lenConst nbitsSeq 0 ss = some outs) :
+    ∃ st', decodeUncompressed T edition enforce fuel s4max bsq nbitsSeq lenConst 0 0 ss.length 0
+        { r := R.ofBytes (padSection4 edition (encodeData ss dataFlag 0).2).bytes, invalid := false } [] =
+        .ok (st', outs) ∧ st'.invalid = false :=
+  encode_decode_walk T edition enforce fuel s4max bsq nbitsSeq lenConst ss outs dataFlag h
+
+/-- **what each decoded position holds**: the walk's result is the nodes already done followed by one
+node per encoder node, each the decoder's own node (descriptor and encoding as Table C application
+derived them) with the value `readBack'` reads from the bits of the facing encoder node.  The one
+exception is the library's: a replication factor that arrives without a usable value (missing) is
+given the value 0 by the expansion. -/
+theorem C01_dynamic_positions (T : Tables) (edition s4max : Nat) (s4len : Int) (fuel : Nat) (ddo : DDO)
+    (done todo ms out : List Node) (h : walk T edition s4max s4len fuel ddo done todo ms = some out) :
+    ∃ tail, out = done.reverse ++ tail ∧ List.Forall₂ Reads tail ms :=
+  walk_reads T edition s4max s4len fuel ddo done todo ms out h
+
 /-! ### Non-vacuity -/
 
 def exT : Tables :=
@@ -105,5 +150,103 @@ example : plainOK exT 4 { enforce := .strict } exBsq = true := by decide +kernel
 example : pairsb exBsq (exBsq.map (exFill 3)) = true ∧ pairsb exBsq (exBsq.map (exFill 17)) = true := by
   decide +kernel
 example : exBsq.length < 100 := by decide +kernel
+
+/-! #### a template with nested delayed replication, a zero count and a 2 03 redefinition -/
+
+def dT : Tables :=
+  { fetchB := fun d =>
+      if d = 7002 then some { desc := 7002, scale := -1, ref := -40, nbits := 16, typ := .numeric }
+      else if d = 12101 then some { desc := 12101, scale := 2, ref := 0, nbits := 16, typ := .numeric }
+      else if d = 1015 then some { desc := 1015, scale := 0, ref := 0, nbits := 160, typ := .ccitt }
+      else if d = 20003 then some { desc := 20003, scale := 0, ref := 0, nbits := 9, typ := .codetable }
+      else if d = 31001 then some { desc := 31001, scale := 0, ref := 0, nbits := 8, typ := .numeric }
+      else if d = 31002 then some { desc := 31002, scale := 0, ref := 0, nbits := 16, typ := .numeric }
+      else none,
+    fetchD := fun _ => none }
+
+/-- 1 04 000 over (0 12 101, 1 01 000 0 31 002 0 20 003); then 2 03 010 … 2 03 255 redefining 0 12 101 -/
+def dSeq : List Nat := [7002, 104000, 31001, 12101, 101000, 31002, 20003, 203010, 12101, 203255, 12101, 203000, 1015]
+
+def dFuel : Nat := 300
+def dTmpl : Option Template := match createTemplate dT dFuel 4 dSeq with | .ok t => some t | _ => none
+
+/-- set the factors not yet used for an expansion, in order (what an application does between
+`bufr_create_datasubset` and `bufr_expand_datasubset`) -/
+def setFactors (vs : List Nat) (ns : List Node) : List Node :=
+  (ns.foldl (fun (acc : List Node × Nat) (n : Node) =>
+    if isClass31Factor n.desc && n.flags.class31 && !n.expanded && !n.skipped && n.hasVal then
+      (acc.1 ++ [{ n with val := n.val.setInt32 (vs.getD (acc.2 % vs.length) 0) }], acc.2 + 1)
+    else (acc.1 ++ [n], acc.2)) ([], 0)).1
+
+def dFill (k : Int) (n : Node) : Node :=
+  if n.flags.class31 || n.flags.skipped then n else
+  match n.val with
+  | .i32 _ => { n with val := .i32 k }
+  | .i64 _ => { n with val := .i64 k }
+  | .f64 _ => { n with val := .f64 (.fin (10 * k)) }
+  | .str bs => { n with val := .str (bs.map fun _ => 65) }
+  | _ => n
+
+/-- the subset as the library's own calls build it: create, set the outer factor, expand, set the
+inner factors, expand, fill, settle the new reference values (first step of the encoder) -/
+def dSubset (outer : Nat) (inner : List Nat) (k : Int) : Option (List Node) :=
+  match dTmpl with
+  | none => none
+  | some t =>
+    match createDatasubset dT dFuel t with
+    | .ok (s0, false) =>
+      match expandDatasubset dT dFuel t { nodes := setFactors [outer] s0.nodes } with
+      | .ok (s1, false) =>
+        match expandDatasubset dT dFuel t { nodes := setFactors inner s1.nodes } with
+        | .ok (s2, false) => some (settleNewRefs dT 4 (s2.nodes.map (dFill k))).1
+        | _ => none
+      | _ => none
+    | _ => none
+
+/-- the decoder's template copy, as `decodeData` derives it -/
+def dBsq : Option (List Node) :=
+  match dTmpl with
+  | none => none
+  | some t =>
+    match expandSequence dT dFuel (OP_EXPAND_DELAY_REPL ||| OP_ZDRC_SKIP) t.gabarit with
+    | .ok b => some (applyTablesAll dT 4 { enforce := .strict } b).1
+    | _ => none
+
+/-- a value as plain numbers (the kernel compares these directly) -/
+def valKey : Val → Nat × List Int × List Nat
+  | .none => (0, [], [])
+  | .i32 v => (1, [v], [])
+  | .i64 v => (2, [v], [])
+  | .f32 (.fin q) => (3, [q.num, q.den], [])
+  | .f32 .nan => (3, [], [0])
+  | .f32 (.inf true) => (3, [], [2])
+  | .f32 (.inf false) => (3, [], [1])
+  | .f64 (.fin q) => (4, [q.num, q.den], [])
+  | .f64 .nan => (4, [], [0])
+  | .f64 (.inf true) => (4, [], [2])
+  | .f64 (.inf false) => (4, [], [1])
+  | .str bs => (5, [], bs)
+
+theorem valKey_inj (a b : Val) (h : valKey a = valKey b) : a = b := by
+  rcases a with _ | v | v | (q | _ | (_ | _)) | (q | _ | (_ | _)) | bs <;>
+  rcases b with _ | v' | v' | (q' | _ | (_ | _)) | (q' | _ | (_ | _)) | bs' <;>
+  simp [valKey] at h ⊢ <;>
+  first
+    | exact h
+    | exact Rat.ext h.1 (by exact_mod_cast h.2)
+
+/-- three subsets of different shapes (outer count 2 with inner counts 3 and 0; outer count 0; outer
+count 1 with inner count 2): the walk goes through, and every position comes back with the descriptor
+and the value that were encoded -/
+def dCheck : Bool :=
+  match dBsq, dSubset 2 [3, 0] 7, dSubset 0 [] 9, dSubset 1 [2] 11 with
+  | some b, some s1, some s2, some s3 =>
+    ((walkAll dT 4 .strict 1000 dFuel b true 0 0 [s1, s2, s3]).map
+        (fun (o : List (List Node)) => o.map (fun (s : List Node) => s.map (fun (n : Node) => (n.desc, valKey n.val)))) ==
+      some ([s1, s2, s3].map (fun (s : List Node) => s.map (fun (n : Node) => (n.desc, valKey n.val))))) &&
+    decide (s1.length = 19 ∧ s2.length = 13 ∧ s3.length = 14)
+  | _, _, _, _ => false
+
+example : dCheck = true := by decide +kernel
 
 end Bufr.C01
